@@ -99,7 +99,8 @@ type World struct {
 	connects int
 	// Ambiguous: the script reached a point where two outcomes are both legitimate for the
 	// delivery model (see Apply "idle"); CheckDeliveries stops judging.
-	Ambiguous bool
+	Ambiguous  bool
+	everFailed bool // a node has failed at some point (its last broadcasts may be lost for some)
 	// Deaf: mount points whose delivery expectations are switched off (used by checks that
 	// only look at part of the picture).
 	notes []string
@@ -220,6 +221,14 @@ func (w *World) endSession(s *Sess, cause string) {
 // The returned string reports an immediate protocol-level surprise ("" = none);
 // inconclusive is set when quiescence was not reached.
 func (w *World) Apply(st Step) (problem string, inconclusive bool) {
+	defer func() {
+		// broker code that the harness drives synchronously (expiry sweeps) runs on this
+		// goroutine: in the broker it runs on the writer's ticker goroutine, where a panic
+		// takes the whole process down
+		if r := recover(); r != nil {
+			problem, inconclusive = fmt.Sprintf("the broker panicked (%s step): %v", st.Op, r), false
+		}
+	}()
 	var s *Sess
 	if st.C >= 0 && st.C < len(w.S) {
 		s = w.S[st.C]
@@ -528,6 +537,7 @@ func (w *World) Apply(st Step) (problem string, inconclusive bool) {
 			return "", false
 		}
 		w.Cl.FailNode(n)
+		w.everFailed = true
 		// the dying sessions are no longer there when their wills are published
 		var dying []*Sess
 		for _, x := range w.S {
@@ -574,6 +584,7 @@ func (w *World) Apply(st Step) (problem string, inconclusive bool) {
 			return "", false
 		}
 		w.Cl.FailNode(n)
+		w.everFailed = true
 		var dying []*Sess
 		for _, x := range w.S {
 			if x.Alive && x.Node == n {
@@ -782,6 +793,12 @@ func (w *World) CheckState() string {
 					return fmt.Sprintf("node %s lists subscriptions %q for live session %s (client %d), expected %q", n.Name, got, s.SessionID, i, want)
 				}
 			}
+		}
+	}
+	if w.Cl.AutoGossip && !w.everFailed {
+		// every broadcast has been delivered: the nodes hold the same records, field by field
+		if d := w.Cl.SnapshotDiff(); d != "" {
+			return "replicated records differ although every broadcast was delivered: " + d
 		}
 	}
 	for i, s := range w.S {
